@@ -120,6 +120,24 @@ func (lv *lockViewH) closureUses(lit *ssa.Function) (calls []ssa.CallInstruction
 				}
 				// passed as an argument to a package function: the calls of the parameter there
 				cal := ir.StaticCallee(x)
+				if cal != nil && !lv.fns[cal] && !x.Call.IsInvoke() && len(cal.Blocks) > 0 {
+					// handed to a function of another package whose body is known and which does nothing with the
+					// parameter but call it (an iteration helper "ForEach(func(e) bool)"): the literal runs during this
+					// very call, on this goroutine. A function of another package cannot name a mutex of this package
+					// (unexported field), so what is held when the helper is called is held when the literal runs: the
+					// call of the helper stands for the call of the literal.
+					for i, a := range x.Call.Args {
+						if a != v {
+							continue
+						}
+						if i >= len(cal.Params) || !onlyCalledH(cal.Params[i], 0) {
+							ok = false
+							continue
+						}
+						calls = append(calls, x)
+					}
+					continue
+				}
 				if cal == nil || !lv.fns[cal] {
 					ok = false
 					continue
@@ -163,6 +181,45 @@ func (lv *lockViewH) closureUses(lit *ssa.Function) (calls []ssa.CallInstruction
 	return calls, ok
 }
 
+// onlyCalledH: the function-valued parameter p is used for nothing but being called in place (or handed to a function
+// with a known body that does the same): it is not stored, captured, returned, started with go or deferred.
+func onlyCalledH(p ssa.Value, depth int) bool {
+	refs := p.Referrers()
+	if refs == nil || depth > 3 {
+		return false
+	}
+	for _, r := range *refs {
+		switch x := r.(type) {
+		case *ssa.DebugRef:
+		case *ssa.Call:
+			if x.Call.Value == p && !x.Call.IsInvoke() {
+				used := false
+				for _, a := range x.Call.Args {
+					if a == p {
+						used = true
+					}
+				}
+				if used {
+					return false
+				}
+				continue
+			}
+			cal := ir.StaticCallee(x)
+			if cal == nil || x.Call.IsInvoke() || len(cal.Blocks) == 0 {
+				return false
+			}
+			for i, a := range x.Call.Args {
+				if a == p && (i >= len(cal.Params) || !onlyCalledH(cal.Params[i], depth+1)) {
+					return false
+				}
+			}
+		default:
+			return false
+		}
+	}
+	return true
+}
+
 // entryOf computes the entry lockset of fn.
 func (lv *lockViewH) entryOf(fn *ssa.Function) map[string]bool {
 	if e, ok := lv.entry[fn]; ok {
@@ -195,6 +252,17 @@ func (lv *lockViewH) entryOf(fn *ssa.Function) map[string]bool {
 			sites = append(sites, s)
 		}
 	}
+	// a literal that is run by a function outside the package (an iteration helper) may be run any number of times
+	// during that call: its second run starts with what its first run left, so what it may release itself is not held
+	// on entry
+	var ownRel map[string]bool
+	if known && fn.Parent() != nil {
+		for _, s := range sites {
+			if cal := ir.StaticCallee(s); cal != nil && cal != fn && !lv.fns[cal] {
+				ownRel, _ = lv.effects(fn, map[*ssa.Function]bool{})
+			}
+		}
+	}
 	if known {
 		first := true
 		for _, s := range sites {
@@ -204,6 +272,9 @@ func (lv *lockViewH) entryOf(fn *ssa.Function) map[string]bool {
 				if len(k) < len(maybeHeldH) || k[:len(maybeHeldH)] != maybeHeldH {
 					cur[k] = true
 				}
+			}
+			for k := range ownRel {
+				delete(cur, k)
 			}
 			if first {
 				res, first = cur, false
@@ -360,6 +431,16 @@ func (lv *lockViewH) compute(fn *ssa.Function, entry map[string]bool) map[ssa.In
 				} else if !call.Call.IsInvoke() && call.Call.StaticCallee() == nil {
 					// a function value: a literal of this package (directly, or a parameter bound to literals)
 					sub = lv.literalsOf(call.Call.Value, 0)
+				} else {
+					// a function outside the package that is handed literals of this package may run them: what they
+					// release is released after the call
+					for _, a := range call.Call.Args {
+						if mc, isMC := ir.Resolve(a).(*ssa.MakeClosure); isMC {
+							if f, isF := mc.Fn.(*ssa.Function); isF && lv.fns[f] {
+								sub = append(sub, f)
+							}
+						}
+					}
 				}
 				for _, g := range sub {
 					r, a := lv.effects(g, map[*ssa.Function]bool{})
